@@ -75,6 +75,10 @@ def strict_parser(pvl, dialect):
 HEAD = "FIRST = 1\n/* head */\n"
 TEMPLATES = [
     ("start-of-text", "{c}a = 1\nEND\n", True),
+    # (the only line break before the character is the first character of the text)
+    ("second-line-after-one-leading-newline", "\n{c}a = 1\nEND\n", True),
+    ("second-line-value-after-one-leading-newline", "\nk = @va{c}lue\nEND\n", True),
+    ("third-line-after-two-leading-newlines", "\n\nk = 1 {c}\nEND\n", True),
     ("inside-parameter-name", HEAD + "  @na{c}me = 1\nEND\n", True),
     ("directly-after-equals", HEAD + "k = {c}1\nEND\n", True),
     ("inside-unquoted-value", HEAD + "k = @va{c}lue\nEND\n", True),
